@@ -2,6 +2,7 @@ import VarmqVerif.Model.Res
 import VarmqVerif.Model.Job
 import VarmqVerif.Model.Sig
 import VarmqVerif.Model.Sig2
+import VarmqVerif.Model.Race
 import VarmqVerif.Model.Wake
 import VarmqVerif.Model.Ack
 import VarmqVerif.Model.Pool
@@ -593,4 +594,91 @@ def feed (st : RState St) (lineNo : Nat) (l : RawLine) : RState St :=
       | .error e => .rejected lineNo s!"{e} @ {l.tag} {l.g} {" ".intercalate l.f}"
   | r => r
 end PoolMap
+end VarmqVerif.Driver
+
+namespace VarmqVerif.Driver
+-- ---------------------------------------------------------------- Race (C19)
+namespace RaceMap
+open Race
+
+structure St where
+  s : Race.State := {}
+  objs : List String := []          -- interned synchronisation objects (index = id)
+  clients : List Nat := []          -- goroutines started by the harness (client threads)
+  sites : List (Nat × Nat × String) := []   -- event index ↦ (goroutine, location name) of accesses, for reports
+  seen : Bool := false              -- an M line was seen (the trace was recorded with -mem)
+  chans : List (String × (Nat × Nat × Nat)) := []   -- channel ↦ (capacity, sends, receives)
+
+def intern (x : St) (o : String) : St × Nat :=
+  match x.objs.findIdx? (· == o) with
+  | some i => (x, i)
+  | none => ({ x with objs := x.objs ++ [o] }, x.objs.length)
+
+def gid (s : String) : Nat := natOf (s.drop 1).toString
+
+/-- the events of one trace line (most lines: none or one) -/
+def events (x : St) (l : RawLine) : St × List Ev :=
+  let g := l.g
+  match l.tag, l.f with
+  | "M", rw :: addr :: size :: site :: _ =>
+    let e := if rw == "w" then Ev.wr g (natOf addr) (natOf size) (natOf site) else Ev.rd g (natOf addr) (natOf size) (natOf site)
+    ({ x with seen := true, sites := (x.s.n, g, l.f.getD 4 "?") :: x.sites }, [e])
+  | "G", "spawn" :: c :: _ => ({ x with clients := gid c :: x.clients }, [.fork g (gid c)])
+  | "H", [kind, key] =>
+    if kind == "joinall" then (x, x.clients.map (fun c => Ev.join g c))
+    else
+      let (x, o) := intern x ("H:" ++ key)
+      (x, [if kind == "rel" then .rel g o else .acq g o])
+  | "E", [_, obj, op, arg, res] =>
+    if op == "go" then (x, [.fork g (gid arg)])
+    else if op.startsWith "call:" || op.startsWith "ret:" || op == "newticker" || op == "tickerstop" then (x, [])
+    -- sync.Cond gives no ordering of its own (the waiter re-acquires L, which is an event of its own)
+    else if op == "park" || op == "wake" || op == "broadcast" || op == "signal" || op == "sel.default" then (x, [])
+    else if obj == "nilchan" then (x, [])
+    else if op == "cancel" then let (x, o) := intern x "ctx"; (x, [.rel g o])
+    else if obj == "foreignchan" then let (x, o) := intern x "ctx"; (x, [.acq g o])
+    else if op == "make" then ({ x with chans := (obj, (natOf arg, 0, 0)) :: x.chans.filter (·.1 != obj) }, [])
+    else if op == "lock" then
+      let (x, w) := intern x (obj ++ "/w"); let (x, r) := intern x (obj ++ "/r"); (x, [.acq g w, .acq g r])
+    else if op == "unlock" then let (x, w) := intern x (obj ++ "/w"); (x, [.rel g w])
+    else if op == "rlock" then let (x, w) := intern x (obj ++ "/w"); (x, [.acq g w])
+    else if op == "runlock" then let (x, r) := intern x (obj ++ "/r"); (x, [.rel g r])
+    else if (op == "trysend" || op == "tryrecv") && res == "false" then (x, [])
+    else
+      let isSend := op == "send" || op == "trysend" || op == "sel.send"
+      let isRecv := op == "recv" || op == "tryrecv" || op == "sel.recv"
+      match x.chans.find? (·.1 == obj) with
+      | some (_, (cap, ns, nr)) =>
+        if op == "close" then let (x, c) := intern x (obj ++ "/closed"); (x, [.rel g c])
+        else if isRecv && res == "closed" then let (x, c) := intern x (obj ++ "/closed"); (x, [.acq g c])
+        else if cap == 0 then
+          -- unbuffered: send and receive synchronise in both directions
+          let (x, o) := intern x obj; (x, [.acqrel g o])
+        else if isSend then
+          -- the k-th send is received by the k-th receive; it completes after the (k - cap)-th receive
+          let x := { x with chans := (obj, (cap, ns + 1, nr)) :: x.chans.filter (·.1 != obj) }
+          let (x, m) := intern x s!"{obj}/m{ns}"
+          if ns ≥ cap then let (x, sl) := intern x s!"{obj}/s{ns - cap}"; (x, [.acq g sl, .rel g m]) else (x, [.rel g m])
+        else if isRecv then
+          let x := { x with chans := (obj, (cap, ns, nr + 1)) :: x.chans.filter (·.1 != obj) }
+          let (x, m) := intern x s!"{obj}/m{nr}"
+          let (x, sl) := intern x s!"{obj}/s{nr}"
+          (x, [.acq g m, .rel g sl])
+        else let (x, o) := intern x obj; (x, [.acqrel g o])
+      | none =>
+        let (x, o) := intern x obj
+        if op == "load" || op == "wait" || op == "get" then (x, [.acq g o])
+        else if op == "store" || op == "put" then (x, [.rel g o])
+        else (x, [.acqrel g o])     -- add, cas, swap, operations on channels made elsewhere, anything unknown
+  | _, _ => (x, [])
+
+def feed (x : St) (l : RawLine) : St :=
+  if l.tag == "X" && l.f.head? == some "recover" then { objs := x.objs, seen := x.seen } else
+  let (x, evs) := events x l
+  { x with s := evs.foldl Race.step x.s }
+
+def describe (x : St) (r : Report) : String :=
+  let look := fun (i : Nat) => match x.sites.find? (·.1 == i) with | some (_, g, n) => s!"g{g} {n}" | none => "?"
+  s!"data race: site {r.siteI} ({look r.i}) and site {r.siteJ} ({look r.j}) access the same memory, at least one writes, and neither happens before the other"
+end RaceMap
 end VarmqVerif.Driver
